@@ -129,6 +129,8 @@ pub fn events(ratios: &[&str]) -> Alphabet {
         evs.push(sell(d, "X", "4", &format!("{}", 20 + i), "0.5"));
         evs.push(sell(d, "X", "10", &format!("{}", 21 + i), "0"));
     }
+    // a very cheap lot (unit cost far below a per-share capital return)
+    evs.push(buy(off(b, 5), "X", "10", "1", "0"));
     for o in [-30i64, -10, 3, 7, 20] {
         let d = off(b, o);
         evs.push(capret(d, "X", "10", "5", "0"));
@@ -142,6 +144,7 @@ pub fn events(ratios: &[&str]) -> Alphabet {
     // larger than one lot's cost but smaller than two lots' (exhausted-lot shapes)
     evs.push(capret(off(b, 3), "X", "10", "150", "0"));
     evs.push(capret(off(b, 7), "X", "10", "200", "0"));
+    evs.push(capret(off(b, 7), "X", "10", "60", "0"));
     for o in [-25i64, 2, 8] {
         for r in ratios {
             evs.push(split(off(b, o), "X", r));
